@@ -6,6 +6,7 @@ import WowVerif.Model.DateTime
 import WowVerif.Model.Flag
 import WowVerif.Model.Enum
 import WowVerif.Model.Frame
+import WowVerif.Model.Geometry
 namespace WowVerif.Driver
 
 def fnvStep (h : UInt64) (x : UInt64) : UInt64 := (h ^^^ x) * 0x100000001b3
@@ -321,6 +322,54 @@ def seqFrames (e : Exp) (d : Dir) (api : Api) (lens : List Nat) : String :=
         | .error msg => acc ++ s!" then {msg} at ?"
     go (bodies.length + 1) bodies stream "ok"
 
+/-! ## geometry -/
+/-- decimal text -> Float (sign, digits, optional fraction, optional exponent) -/
+def parseFloat? (s : String) : Option Float :=
+  let s := s.trimAscii.toString
+  let (neg, body) := if s.startsWith "-" then (true, (s.drop 1).toString) else (false, s)
+  let (mant, exp) := match body.splitOn "e" with
+    | [m, e] => (m, e.toInt?)
+    | [m] => (m, some 0)
+    | _ => ("", none)
+  match exp with
+  | none => none
+  | some e =>
+    let parts := mant.splitOn "."
+    let r : Option (Nat × Nat) := match parts with
+      | [i] => i.toNat?.map fun n => (n, 0)
+      | [i, f] => do
+          let n ← (if i.isEmpty then some 0 else i.toNat?)
+          let fn ← (if f.isEmpty then some 0 else f.toNat?)
+          pure (n * 10 ^ f.length + fn, f.length)
+      | _ => none
+    r.map fun (digits, scale) =>
+      let e' : Int := e - scale
+      let v := if e' ≥ 0 then Float.ofNat (digits * 10 ^ e'.toNat) else Float.ofNat digits / Float.ofNat (10 ^ (-e').toNat)
+      if neg then -v else v
+
+open Geometry in
+def geoHandle (ws : List String) : Option String :=
+  match ws with
+  | ["geosq", px, py, pz, ox, oy, oz, l, w, h, yaw] => do
+      let p : V3 Float := ⟨← parseFloat? px, ← parseFloat? py, ← parseFloat? pz⟩
+      let o : V3 Float := ⟨← parseFloat? ox, ← parseFloat? oy, ← parseFloat? oz⟩
+      let l ← parseFloat? l; let w ← parseFloat? w; let h ← parseFloat? h; let yaw ← parseFloat? yaw
+      let r := isWithinSquare floatOps p o l w h yaw
+      pure s!"{if r then "in" else "out"} margin={squareMargin p o l w h yaw}"
+  | ["geocircle", cx, cy, cz, px, py, pz, r] => do
+      let c : V3 Float := ⟨← parseFloat? cx, ← parseFloat? cy, ← parseFloat? cz⟩
+      let p : V3 Float := ⟨← parseFloat? px, ← parseFloat? py, ← parseFloat? pz⟩
+      let r ← parseFloat? r
+      let d := distanceBetween floatOps c p
+      pure s!"{if isWithinDistance floatOps c p r then "in" else "out"} margin={Float.abs (d - r)}"
+  | ["geodist", ax, ay, az, bx, by_, bz] => do
+      let a : V3 Float := ⟨← parseFloat? ax, ← parseFloat? ay, ← parseFloat? az⟩
+      let b : V3 Float := ⟨← parseFloat? bx, ← parseFloat? by_, ← parseFloat? bz⟩
+      pure s!"{distanceBetween floatOps a b}"
+  | ["geodist2", ax, ay, bx, by_] => do
+      pure s!"{distance2d floatOps (← parseFloat? ax) (← parseFloat? ay) (← parseFloat? bx) (← parseFloat? by_)}"
+  | _ => none
+
 def handle (ws : List String) : String :=
   match ws with
   | ["dt", n] => match n.toNat? with
@@ -361,6 +410,8 @@ def handle (ws : List String) : String :=
       match w.toNat?, parseRole role, v.toNat?, allV.toNat?, parseBody body with
       | some w, some role, some v, some allV, some body => flagItem w role v allV (zav == "1") body
       | _, _, _, _, _ => "bad-op"
-  | _ => "bad-op"
+  | _ => match geoHandle ws with
+    | some r => r
+    | none => "bad-op"
 
 end WowVerif.Driver
